@@ -1,6 +1,8 @@
 package refmodel
 
 import (
+	"bytes"
+	"crypto/sha256"
 	"encoding/binary"
 	"encoding/hex"
 	"fmt"
@@ -191,6 +193,47 @@ func (w *builder) putIdentity(id *Identity) {
 	}
 }
 
+// elemHash is the 32-byte hash of element i of n (lease gateway, entry hash):
+// unrelated bytes normally, related to the structure itself when the shape's
+// Ref knob selects this element.
+func (w *builder) elemHash(sh *engine.Shape, id *Identity, i, n int, label string, prev []byte) []byte {
+	plain := expand(sh.Seed+uint64(i), label, 32)
+	if sh.Ref == 0 || n == 0 || (sh.Ref>>4)%n != i {
+		return plain
+	}
+	sum := func(b []byte) []byte { h := sha256.Sum256(b); return h[:] }
+	switch sh.Ref & 15 {
+	case 1:
+		if id != nil {
+			return sum(id.Bytes)
+		}
+	case 2:
+		if id != nil {
+			return sum(id.Key.Pub)
+		}
+	case 3:
+		if id != nil {
+			return append([]byte(nil), id.Bytes[:32]...)
+		}
+	case 4:
+		if id != nil && len(id.Key.Pub) >= 32 {
+			return append([]byte(nil), id.Key.Pub[len(id.Key.Pub)-32:]...)
+		}
+	case 5:
+		return sum(w.b)
+	case 6:
+		if len(prev) >= 32 {
+			return append([]byte(nil), prev[:32]...)
+		}
+		return make([]byte, 32)
+	case 7:
+		return make([]byte, 32)
+	case 8:
+		return bytes.Repeat([]byte{0xFF}, 32)
+	}
+	return plain
+}
+
 func identOf(sh *engine.Shape) *Identity {
 	cert := sh.Cert
 	if cert == "" {
@@ -316,8 +359,9 @@ func Build(sh *engine.Shape) (*Frame, error) {
 		}
 		w.put("ls_signing_key", ClsKey, rk)
 		w.put("ls_count", ClsCount, []byte{byte(sh.N)})
+		var l []byte
 		for i := 0; i < sh.N; i++ {
-			l := append(expand(sh.Seed+uint64(i), "ls-gw", 32), be(4, uint64(i+1))...)
+			l = append(w.elemHash(sh, f.Ident, i, sh.N, "ls-gw", l), be(4, uint64(i+1))...)
 			l = append(l, be(8, u(sh, i))...)
 			w.put(fmt.Sprintf("lease%d", i), ClsLease, l)
 			f.Ends = append(f.Ends, u(sh, i))
@@ -373,8 +417,9 @@ func Build(sh *engine.Shape) (*Frame, error) {
 				w.put(fmt.Sprintf("key%d", i), ClsKey, expand(sh.Seed+uint64(i), "ls2key", kl))
 			}
 			w.put("num", ClsCount, []byte{byte(sh.N)})
+			var l []byte
 			for i := 0; i < sh.N; i++ {
-				l := append(expand(sh.Seed+uint64(i), "ls2-gw", 32), be(4, uint64(i+1))...)
+				l = append(w.elemHash(sh, f.Ident, i, sh.N, "ls2-gw", l), be(4, uint64(i+1))...)
 				l = append(l, be(4, u(sh, 3+i))...)
 				w.put(fmt.Sprintf("lease%d", i), ClsLease, l)
 				f.Ends = append(f.Ends, u(sh, 3+i))
@@ -382,9 +427,13 @@ func Build(sh *engine.Shape) (*Frame, error) {
 			f.Prefix = []byte{3}
 		} else {
 			w.put("num", ClsCount, []byte{byte(sh.N)})
+			var e []byte
 			for i := 0; i < sh.N; i++ {
 				x := expand(sh.Seed+uint64(i), "mls-entry", 34)
-				e := append([]byte(nil), x[:32]...)
+				if sh.Ref != 0 {
+					copy(x, w.elemHash(sh, f.Ident, i, sh.N, "mls-entry-ref", e))
+				}
+				e = append([]byte(nil), x[:32]...)
 				e = append(e, []byte{1, 3, 5}[int(x[32])%3])
 				e = append(e, be(4, u(sh, 3+i))...)
 				e = append(e, x[33])
@@ -461,6 +510,30 @@ func Build(sh *engine.Shape) (*Frame, error) {
 		return nil, fmt.Errorf("refmodel: unknown shape kind %q", sh.Kind)
 	}
 	f.Bytes, f.Fields = w.b, w.f
+	if sh.SigFill != 0 && len(w.f) > 0 && w.f[len(w.f)-1].Name == "signature" {
+		sig := w.b[w.f[len(w.f)-1].Start:]
+		body := w.b[:w.f[len(w.f)-1].Start]
+		switch sh.SigFill {
+		case 1:
+			// the last lease / entry (with its properties), repeated
+			from := -1
+			for _, fl := range w.f {
+				if fl.Class == ClsLease || fl.Class == ClsEntry {
+					from = fl.Start
+				}
+			}
+			if from >= 0 && from < len(body) {
+				el := append([]byte(nil), body[from:]...)
+				for i := range sig {
+					sig[i] = el[i%len(el)]
+				}
+			}
+		case 2:
+			copy(sig, append([]byte(nil), body...))
+		case 3:
+			clear(sig)
+		}
+	}
 	return f, nil
 }
 
